@@ -30,8 +30,9 @@ def op(k, a='', b='', c=''):
 
 
 class Scenario:
-    def __init__(self, label, ops, pre, max_ops, max_env=1, max_index=8, slices=2, simulate=None, note=''):
+    def __init__(self, label, ops, pre, max_ops, max_env=1, max_index=8, slices=2, simulate=None, note='', invariants=()):
         self.label, self.ops, self.pre = label, ops, pre
+        self.invariants = list(invariants)  # beyond MODEL_INVARIANTS (FoundAreOwn where the scheme is unambiguous)
         self.max_ops, self.max_env, self.max_index, self.slices = max_ops, max_env, max_index, slices
         self.simulate = simulate
         self.note = note
@@ -63,8 +64,11 @@ CONSTANTS
 {prop}
 '''
 
+    def all_invariants(self):
+        return MODEL_INVARIANTS + self.invariants
 
-MODEL_INVARIANTS = ['TypeOK', 'FreshNames', 'LeastRule', 'LoadsWhatWasWritten']
+
+MODEL_INVARIANTS = ['TypeOK', 'FreshNames', 'LeastRule', 'LoadsWhatWasWritten', 'SeesOwnFilesOnly', 'RecycleOwnModel']
 MODEL_PROPERTIES = ['NoOverwrite', 'NothingLost']
 
 
@@ -112,6 +116,36 @@ def scenarios(tier: str) -> list[Scenario]:
         [W('pickle'), W('html'), op('recycle', 'm'), op('load', 'm~100.pickle'), op('extremove', 'm~57.pickle')],
         [full, full - {'m~99.pickle'}],
         3 if quick else 4, max_env=1, max_index=110))
+    # ---- several models whose names share a prefix in one directory: every lookup by model name sees its own files only
+    L = lambda m, ext='pickle': op('list', m, ext)  # noqa: E731
+    R = lambda m: op('recycle', m)  # noqa: E731
+    X = lambda n: op('extremove', n)  # noqa: E731
+    gap = {'mode.pickle', 'mode~00.pickle', 'mode~02.pickle', 'mode_price.pickle', 'mode_price~00.pickle', 'mode_price.html'}
+    none_yet = {'mode_price.pickle', 'mode_price~01.pickle', 'mode.html', 'mode_validation.pickle'}
+    out.append(Scenario(
+        'prefix: mode / mode_price',
+        [W('pickle', 'mode', 'o1'), W('pickle', 'mode_price', 'o2'), R('mode'), R('mode_price'), L('mode'), X('mode.pickle')]
+        + ([] if quick else [W('html', 'mode_price', 'o2'), W('html', 'mode', 'o1'), L('mode', 'html'), L('mode_price'), X('mode~00.pickle'),
+                             op('estimate', 'mode')]),
+        [set(), gap, none_yet], 2 if quick else 3, max_env=1, invariants=['FoundAreOwn']))
+    # the files validate() leaves behind (m_val_est_<i>.*, m_validation.pickle) next to the model's own
+    after_val = {'m.pickle', 'm.html', 'm_validation.pickle', 'm_val_est_1.pickle', 'm_val_est_1.html', 'm_val_est_2.pickle'}
+    val_gaps = {'m_validation.pickle', 'm_validation~00.pickle', 'm_val_est_1.pickle', 'm_val_est_1~01.pickle', 'm~01.pickle'}
+    out.append(Scenario(
+        'prefix: validation files',
+        [op('validate', 'm'), R('m'), R('m_val_est_1'), L('m'), L('m_val_est_1'), W('pickle', 'm', 'o1'), X('m.pickle')]
+        # (no model NAMED m_validation: m_validation.pickle, which validate() of m writes, would by its name be a file of
+        #  that model too -- TLC reports FoundAreOwn for it; an ambiguity of the scheme itself, like m~00 next to m)
+        + ([] if quick else [X('m~01.pickle'), L('m', 'html'), X('m_validation.pickle')]),
+        [set(), after_val, val_gaps], 2 if quick else 3, max_env=1, invariants=['FoundAreOwn']))
+    # a sibling whose name continues with "~": mode~v2.pickle is matched by the pattern mode~*.pickle, but it is not a
+    # numbered version of mode.pickle
+    out.append(Scenario(
+        'prefix: mode / mode~v2',
+        [W('pickle', 'mode', 'o1'), W('pickle', 'mode~v2', 'o3'), R('mode'), R('mode~v2'), L('mode')]
+        + ([] if quick else [L('mode~v2'), X('mode.pickle'), W('html', 'mode~v2', 'o3'), L('mode', 'html')]),
+        [set(), {'mode.pickle', 'mode~01.pickle', 'mode~v2.pickle', 'mode~v2~00.pickle'}], 2 if quick else 3, max_env=1,
+        invariants=['FoundAreOwn']))
     if not quick:
         # deeper histories on a small alphabet: reports and pickles with holes, 5 operations
         out.append(Scenario(
@@ -122,7 +156,8 @@ def scenarios(tier: str) -> list[Scenario]:
             5, max_env=2))
         out.append(Scenario(
             'validate',
-            [op('validate', 'm'), op('estimate', 'm'), op('extremove', 'm_val_est_1.html'), op('recycle', 'm_val_est_1')],
+            [op('validate', 'm'), op('estimate', 'm'), op('extremove', 'm_val_est_1.html'), op('recycle', 'm_val_est_1'),
+             op('recycle', 'm')],
             [set(), {'m_validation.pickle', 'm_val_est_1.html', 'm_val_est_2.pickle', 'm_val_est_2~00.pickle'}],
             3, max_env=1))
         # long random walks over the union of the alphabets (no pickle of the model named m~00 here: the glob
@@ -133,7 +168,9 @@ def scenarios(tier: str) -> list[Scenario]:
              op('dump', 'tiny'), op('backup', 'm', 'html', 'copy'), op('backup', 'm', 'pickle', 'rename'),
              op('estimate', 'm'), op('recycle', 'm'), op('extremove', 'm.html'), op('extremove', 'm.pickle'),
              op('extremove', 'm~00.pickle'), op('extremove', 'm~01.html'), op('extcreate', 'm~02.html'),
-             op('load', 'm.pickle'), op('load', 'm~00.pickle'), op('load', 'm~01.pickle')],
+             op('load', 'm.pickle'), op('load', 'm~00.pickle'), op('load', 'm~01.pickle'),
+             W('pickle', 'm_price', 'o3'), W('html', 'm_price', 'o3'), L('m'), L('m', 'html'), R('m_price'),
+             op('extcreate', 'm_validation.pickle')],
             [set(), {'m.html', 'm~01.html', 'm.pickle', 'm~01.pickle', 'm~03.pickle'}],
             9, max_env=3, max_index=16, simulate=dict(num=1500)))
     return out
@@ -293,7 +330,7 @@ def execute(o: dict, objects: dict, sigs: dict, counter: list):
     if k in ('estimate', 'recycle'):
         m = real_model(o['a'])
         if k == 'recycle':
-            LISTED[:] = m.files_of_type('pickle')
+            LISTED[:] = [str(x) for x in (m.files_of_type('pickle') or [])]
         res = m.estimate(recycle=(k == 'recycle'))
         if OPENED:  # results were read from a file
             return '', signature(res)
@@ -301,6 +338,9 @@ def execute(o: dict, objects: dict, sigs: dict, counter: list):
             return f'html={res.data.htmlFileName} pickle={res.data.pickleFileName}', None
         sigs[res.data.pickleFileName] = signature(res)
         return res.data.pickleFileName, None
+    if k == 'list':
+        LISTED[:] = [str(x) for x in (real_model(o['a']).files_of_type(o['b']) or [])]
+        return '', None
     if k == 'validate':
         m = real_model(o['a'])
         key = ('est', o['a'])
@@ -331,7 +371,7 @@ def execute(o: dict, objects: dict, sigs: dict, counter: list):
 
 
 def replay(item: dict) -> dict:
-    """item: dict(hist=emitted history, slices=.., control=None|'precreate'|'overwrite')
+    """item: dict(hist=emitted history, slices=.., control=None|'precreate'|'overwrite'|'loose_lookup')
     -> dict(mismatches=[...], trace=recorded trace, n=comparisons)"""
     hist, control = item['hist'], item.get('control')
     _hook()
@@ -341,6 +381,8 @@ def replay(item: dict) -> dict:
     n = 0
     steps_rec = []
     saved_rule = bf.get_new_file_name
+    import biogeme.biogeme as bb
+    saved_lookup = bb.BIOGEME.files_of_type
     with Dir():
         sigs: dict = {}
         objects: dict = {}
@@ -353,6 +395,9 @@ def replay(item: dict) -> dict:
             plant(name, ver_of.get(name, i + 1), sigs)
         if control == 'overwrite':
             bf.get_new_file_name = lambda name, ext: f'{name}.{ext}'
+        if control == 'loose_lookup':  # everything whose name starts with the model name
+            import glob
+            bb.BIOGEME.files_of_type = lambda self, extension, all_files=False: glob.glob(f'{self.modelName}*.{extension}')
         try:
             planted = False
             for j, st in enumerate(hist['steps']):
@@ -370,7 +415,8 @@ def replay(item: dict) -> dict:
                     ret, loaded_sig, err = '', None, f'{type(e).__name__}: {str(e)[:200]}'
                 opened = OPENED[-1] if OPENED else ''
                 after = snapshot()
-                steps_rec.append(dict(op=o, before=before, after=after, ret=ret or '', opened=opened, listed=['-'] + sorted(LISTED)))
+                ret = '' if ret is None else ret if isinstance(ret, str) else f'{ret!r} (not a string)'
+                steps_rec.append(dict(op=o, before=before, after=after, ret=ret, opened=opened, listed=['-'] + sorted(set(LISTED))))
                 n += 1
                 ctx = dict(step=j + 1, op=o, before=sorted(x for x in before if x != SENTINEL))
                 if err is not None:
@@ -387,6 +433,12 @@ def replay(item: dict) -> dict:
                     mism.append(dict(key=f"files:{o['k']}:existing file changed", got=changed, **ctx))
                 if (ret or '') != st['ret']:
                     mism.append(dict(key=f"files:{o['k']}:returned name", got=ret, want=st['ret'], **ctx))
+                if o['k'] in ('list', 'recycle'):
+                    n += 1
+                    if sorted(LISTED) != sorted(st['seen']):
+                        foreign = sorted(set(LISTED) - set(st['seen']))
+                        mism.append(dict(key=f"files:{o['k']}:files of the model" + (' (holds files of another model)' if foreign else ''),
+                                         got=sorted(LISTED), want=sorted(st['seen']), **ctx))
                 if opened != st['from']:
                     mism.append(dict(key=f"files:{o['k']}:file read", got=opened, want=st['from'], **ctx))
                 elif st['from'] and loaded_sig is not None and sigs.get(st['from']) is not None and loaded_sig != sigs[st['from']]:
@@ -400,7 +452,27 @@ def replay(item: dict) -> dict:
                     mism.append(dict(key='files:final directory', got=final, want=sorted(x for x, _ in hist['final'])))
         finally:
             bf.get_new_file_name = saved_rule
+            bb.BIOGEME.files_of_type = saved_lookup
     return dict(mismatches=mism, trace=steps_rec, n=n)
+
+
+def expected_trace(hist: dict) -> list:
+    """the directory trace the SPECIFICATION describes for an emitted history (content ids = the
+    specification's version numbers): what a correct implementation records.  Used by the negative
+    controls, which must not depend on how the library under test behaves."""
+    cur = {SENTINEL: 'v0'}
+    for i, name in enumerate(hist['pre']):
+        cur[name] = f'v{i + 1}'
+    steps = []
+    for st in hist['steps']:
+        before = dict(cur)
+        for g in st['gone']:
+            cur.pop(g, None)
+        for name, v in zip(st['new'], st['vers']):
+            cur[name] = f'v{v}'
+        steps.append(dict(op=st['op'], before=before, after=dict(cur), ret=st['ret'], opened=st['from'],
+                          listed=['-'] + sorted(st.get('seen', []))))
+    return steps
 
 
 # ------------------------------------------------------------------ traces -> FilesTrace.tla
@@ -410,8 +482,8 @@ def encode_trace(tid: int, steps: list) -> dict:
     def enc(snap):
         return [dict(n=n, s=ids.setdefault(h, len(ids) + 1)) for n, h in sorted(snap.items())]
 
-    return dict(tid=tid, steps=[dict(op=s['op'], before=enc(s['before']), after=enc(s['after']), ret=s['ret'], opened=s['opened'],
-                                     listed=s['listed'])
+    return dict(tid=tid, steps=[dict(op=s['op'], before=enc(s['before']), after=enc(s['after']), ret=str(s['ret']), opened=str(s['opened']),
+                                     listed=[str(x) for x in s['listed']])
                                 for s in steps])
 
 
